@@ -110,3 +110,54 @@ Definition retry_ok (x : ctx) (s' : sub) : bool :=
 Definition expiry_ok (s : sub) (now : N) : bool :=
   (IMAX <? s_since s + s_max s * 1000) || (now <? s_since s + s_max s * 1000).
 
+
+(** * End-to-end traces
+
+    When the real reporter task and subscribe path run, the report contexts live on their
+    stacks and cannot be observed: only the table (subscriptions, change table, in-flight
+    slot) is.  The monitor then keeps the contexts of its own state and takes everything
+    else from the implementation's snapshot. *)
+Definition graft_e2e (g' g snap : state) : state :=
+  mkSt (next_sid snap) (count snap) (map (graft_sub g' g) (subs snap)) (tab snap) (next_chg snap)
+       (reporting snap) (cancelled snap) (ctxs g') (kv g')
+       (log g') (nchg g') (evn g').
+
+(** monitor step without a snapshot: the monitor's own successor state *)
+Definition mon_step_e2e (g : state) (o : op) (ob : option bool) (snap : option state) : state :=
+  let g' := fst (step_gen true true ob g o) in
+  match snap with Some s => graft_e2e g' g s | None => g' end.
+
+Definition entry_eqb (a b : entry) : bool :=
+  (e_ep a =? e_ep b) && (e_cl a =? e_cl b) && (e_at a =? e_at b) && (e_id a =? e_id b).
+
+Fixpoint list_eqb {A} (f : A -> A -> bool) (a b : list A) : bool :=
+  match a, b with
+  | [], [] => true
+  | x :: a', y :: b' => f x y && list_eqb f a' b'
+  | _, _ => false
+  end.
+
+(** the observable (non-ghost) fields of a subscription *)
+Definition sub_eqb (a b : sub) : bool :=
+  (s_id a =? s_id b) && (s_fab a =? s_fab b) && (s_peer a =? s_peer b) &&
+  (s_min a =? s_min b) && (s_max a =? s_max b) && (s_rep_at a =? s_rep_at b) && (s_acc a =? s_acc b) &&
+  (s_retry_at a =? s_retry_at b) && (s_fail a =? s_fail b) && (s_seen a =? s_seen b) &&
+  (s_seen_ev a =? s_seen_ev b) && list_eqb path_eqb (s_paths a) (s_paths b).
+
+(** does the model's predicted state agree with what was observed of the implementation? *)
+Definition agree_e2e (m snap : state) : bool :=
+  (next_sid m =? next_sid snap) && (count m =? count snap) && (next_chg m =? next_chg snap) &&
+  list_eqb entry_eqb (tab m) (tab snap) && list_eqb sub_eqb (subs m) (subs snap) &&
+  match reporting m, reporting snap with
+  | Some a, Some b => s_id a =? s_id b
+  | None, None => true
+  | _, _ => false
+  end && Bool.eqb (cancelled m) (cancelled snap).
+
+(** an acknowledged subscribe request is in the table (or being reported on) afterwards *)
+Definition established_ok (st : state) (sid : N) : bool :=
+  existsb (fun s => s_id s =? sid) (subs st) ||
+  match reporting st with Some r => s_id r =? sid | None => false end.
+
+(** the subscriber's copy of every subscribed attribute is the device's (versions as numbers) *)
+Definition learned_ok (l : list (N * N)) : bool := forallb (fun p => fst p =? snd p) l.
